@@ -225,8 +225,15 @@ pub fn altered(
                 }
                 Some(inputs) => {
                     for ip in inputs {
-                        if up_parts.contains(ip) && check(ip)? {
-                            return Ok(true);
+                        if up_parts.contains(ip) {
+                            // history_comparisons.py: a consumed output that the old record (of a
+                            // renamed upstream) does not have counts as altered
+                            if !l.contains_key(ip) {
+                                return Ok(true);
+                            }
+                            if check(ip)? {
+                                return Ok(true);
+                            }
                         }
                     }
                 }
